@@ -3,7 +3,7 @@
 TIER="${1:-quick}"
 cd "$(dirname "$0")/.."
 rc=0
-for c in C01 C02 C03 C04 C05 C06 C07 C08 C09 C10 C11 C12 C13 C14 C15 C16 C17 C18 C19; do
+for c in C01 C02 C03 C04 C05 C06 C07 C08 C09 C10 C11 C12 C13 C14 C15 C16 C17 C18 C19 C20; do
   out=$(./check $c --tier $TIER 2>&1); code=$?
   echo "$out" | grep -E "^$c \[" | sed "s/^/[exit $code] /"
   if [ $code -ne 0 ]; then rc=1; echo "$out" | grep -E "violated|ANALYSIS-ERROR|VIOLATION" | cut -c1-240; fi
